@@ -181,12 +181,14 @@ Definition wf_bca_fcf (c : mbi_class) : bool :=
   ((opt_mixin_id (provider c SSign) =? 0) || (opt_mixin_id (provider c SSign) =? mixin_id ExportMixinCrcSignBca)).
 
 Lemma update_fcf_props x app : (1040 <= length app)%nat -> 0 <= b_lifecycle x < 256 ->
-  let b := update_fcf x app in
+  exists b, update_fcf x app = Ok b /\
   length b = length app /\
   (forall i, i <> O_LC -> nth i b 0%N = nth i app 0%N) /\
   nth O_LC b 0%N = (if b_lifecycle x =? 255 then nth O_LC app 0%N else Z.to_N (b_lifecycle x)).
 Proof.
-  intros L R b. unfold b, update_fcf. change O_LC with 1036%nat. destruct (b_lifecycle x =? 255) eqn:E; [repeat split; reflexivity|].
+  intros L R. unfold update_fcf. change O_LC with 1036%nat. destruct (b_lifecycle x =? 255) eqn:E; [exists app; repeat split; reflexivity|].
+  replace (Nat.leb (length app) 1036) with false by (symmetry; apply Nat.leb_gt; lia).
+  eexists. split; [reflexivity|].
   split; [apply splice_length; simpl; lia|]. split.
   - intros i Hi. rewrite nth_splice by (simpl; lia). cbn [length].
     destruct (i <? 1036)%nat eqn:E1; [reflexivity|]. destruct (i <? 1036 + 1)%nat eqn:E2; [|reflexivity].
@@ -211,27 +213,29 @@ Proof. congruence. Qed.
 Theorem export_bca_fcf_shape k c x im :
   wf_bca_fcf c = true -> (1040 <= length (b_app x))%nat -> 0 <= b_lifecycle x < 256 ->
   export_b k c x = Ok im ->
-  let b := update_fcf x (b_app x) in
+  exists b, update_fcf x (b_app x) = Ok b /\
   (provider c SSign = None -> im = b) /\
   (provider c SSign = Some ExportMixinCrcSignBca ->
    exists wc ws wn, u32 (Z.of_N (mbi_crc32_mpeg (skipn O_DATA b))) = Ok wc /\ u32 G_BCA_IMG_DATA_START = Ok ws /\
                     u32 (zlen (skipn O_DATA b)) = Ok wn /\
                     im = firstn 960 b ++ wr 8 wn (wr 4 ws (wr 12 wc (sub b O_BCA O_FCF))) ++ skipn 1024 b).
 Proof.
-  intros W L R E. cbv zeta. unfold wf_bca_fcf in W. wf_split W.
+  intros W L R E. unfold wf_bca_fcf in W. wf_split W.
   rename W0 into Wsign, W1 into Wdis, W2 into Wcol, W3 into Wno, W4 into Wfcf, W5 into Wapp.
   apply Z.eqb_eq in Wcol, Wdis. apply opt_id_eq in Wcol, Wdis.
-  destruct (update_fcf_props x (b_app x) L R) as (Lb & _ & _).
+  destruct (update_fcf_props x (b_app x) L R) as (b & UF & Lb & _ & _). exists b. split; [exact UF|].
   unfold export_b in E. rewrite Wno in E. cbn [negb] in E.
   apply bind_ok in E as ([] & _ & E). apply bind_ok in E as (im0 & C & E). apply bind_ok in E as (im1 & S & E). apply ok_inj in E. subst im.
-  unfold collect_b in C. rewrite Wcol in C. destruct (b_app x) as [|a0 r0] eqn:Ea; [simpl in L; lia|]. rewrite <- Ea in *. apply ok_inj in C. subst im0.
-  remember (update_fcf x (b_app x)) as b eqn:Eb0. destruct (slices_shape b) as (CT & OC & LN & OB).
+  unfold collect_b in C. rewrite Wcol in C. destruct (b_app x) as [|a0 r0] eqn:Ea; [simpl in L; lia|]. rewrite <- Ea in *.
+  rewrite UF in C. cbn [bind] in C. apply ok_inj in C. subst im0.
+  destruct (slices_shape b) as (CT & OC & LN & OB).
   split.
   - intros Pn. unfold sign_b in S. rewrite Pn in S. apply ok_inj in S. subst im1. rewrite (oexport_contig _ CT). exact OC.
   - intros Pc. unfold sign_b in S. rewrite Pc in S. rewrite OB in S.
     rewrite (oexport_contig _ CT), OC in S.
     assert (Lbca : length (sub b O_BCA O_FCF) = 64%nat) by (unfold sub; rewrite slice_length; change O_BCA with 960%nat; change O_FCF with 1024%nat; lia).
     destruct (sub b O_BCA O_FCF) as [|h0 t0] eqn:Eb; [simpl in Lbca; lia|]. rewrite <- Eb in *.
+    replace (Nat.ltb (length (sub b O_BCA O_FCF)) 16) with false in S by (symmetry; apply Nat.ltb_ge; lia).
     apply bind_ok in S as (wc & Uc & S). apply bind_ok in S as (ws & Us & S). apply bind_ok in S as (wn & Un & S). apply ok_inj in S. subst im1.
     exists wc, ws, wn. repeat split; try assumption.
     pose proof (u32_length _ _ Uc) as Lc. pose proof (u32_length _ _ Us) as Ls. pose proof (u32_length _ _ Un) as Ln.
@@ -280,9 +284,9 @@ Theorem roundtrip_bca_fcf k q c x im :
 Proof.
   intros W L LT E.
   assert (R : 0 <= b_lifecycle x < 256) by (unfold lifecycle_tags in LT; simpl in LT; lia).
-  destruct (export_bca_fcf_shape k c x im W L R E) as [SN SC]. cbv zeta in SN, SC.
-  destruct (update_fcf_props x (b_app x) L R) as (Lb & NB & NL). cbv zeta in Lb, NB, NL.
-  remember (update_fcf x (b_app x)) as b eqn:Eb0.
+  destruct (export_bca_fcf_shape k c x im W L R E) as (b & UF & SN & SC).
+  destruct (update_fcf_props x (b_app x) L R) as (b' & UF' & Lb & NB & NL).
+  rewrite UF in UF'. apply ok_inj in UF'. subst b'.
   pose proof W as W'. unfold wf_bca_fcf in W'. wf_split W'.
   rename W0 into Wsign, W1 into Wdis, W2 into Wcol, W3 into Wno, W4 into Wfcf, W5 into Wapp.
   apply Z.eqb_eq in Wdis. apply opt_id_eq in Wdis.
@@ -353,7 +357,7 @@ Qed.
 (* ------------------------------------------------------------------ every offer of the database: under a round-trip theorem,
    or one of two named kinds that are modelled (MbiBcaModel.v, exact correspondence on every run) but have no round-trip theorem:
    - kind_vx   (mc56f818xx / mwct20d2 signed, certificate block Vx): Mbi_ExportMixinEccSignVx replaces sub-images by shorter
-     strings (zero fill); the parsed object cannot be exported at all (finding C01-F16), short applications crash (C01-F13);
+     strings (zero fill), which the concatenation lemmas below do not cover yet;
    - kind_mcxc (mcxc plain with BCA / FCF objects): the register level canonical form of the two areas belongs to C11 / C12,
      and parse does not find the class for most payloads (finding C01-F11). *)
 Definition kind_vx (c : mbi_class) : bool := bca_kind c && has c MixinCertBlockVx.
@@ -378,3 +382,28 @@ Lemma offers_counted :
   count_offers (fun _ => true) = (count_offers under_roundtrip_theorem + count_offers kind_vx + count_offers kind_mcxc)%nat /\
   (0 < count_offers wf_bca_fcf)%nat.
 Proof. vm_compute. split; [reflexivity | lia]. Qed.
+
+
+(* the repaired refusals (findings C01-F14, C01-F15): a life cycle on an application that ends before the life-cycle byte,
+   and CRC signing of an application that ends inside the first 16 bytes of the Boot Config Area, are not exported *)
+Theorem bca_fcf_refusals k c x im :
+  wf_bca_fcf c = true -> export_b k c x = Ok im ->
+  (b_lifecycle x <> 255 -> (O_LC < length (b_app x))%nat) /\
+  (provider c SSign = Some ExportMixinCrcSignBca -> b_lifecycle x = 255 -> (O_BCA + 16 <= length (b_app x))%nat).
+Proof.
+  intros W E. unfold wf_bca_fcf in W. wf_split W.
+  rename W0 into Wsign, W1 into Wdis, W2 into Wcol, W3 into Wno, W4 into Wfcf, W5 into Wapp.
+  apply Z.eqb_eq in Wcol. apply opt_id_eq in Wcol.
+  unfold export_b in E. rewrite Wno in E. cbn [negb] in E.
+  apply bind_ok in E as ([] & _ & E). apply bind_ok in E as (im0 & C & E). apply bind_ok in E as (im1 & S & E).
+  unfold collect_b in C. rewrite Wcol in C. destruct (b_app x) as [|a0 r0] eqn:Ea; [discriminate C|]. rewrite <- Ea in *.
+  apply bind_ok in C as (b & UF & C). apply ok_inj in C. subst im0.
+  split.
+  - intros NE. unfold update_fcf in UF. apply Z.eqb_neq in NE. rewrite NE in UF.
+    destruct (Nat.leb (length (b_app x)) O_LC) eqn:Q; [discriminate UF|]. apply Nat.leb_gt in Q. exact Q.
+  - intros Pc LC. unfold update_fcf in UF. rewrite LC in UF. cbn in UF. apply ok_inj in UF. subst b.
+    unfold sign_b in S. rewrite Pc in S. destruct (slices_shape (b_app x)) as (CT & OC & LN & OB). rewrite OB in S.
+    destruct (sub (b_app x) O_BCA O_FCF) as [|h0 t0] eqn:Eb; [discriminate S|]. rewrite <- Eb in *.
+    destruct (Nat.ltb (length (sub (b_app x) O_BCA O_FCF)) 16) eqn:Q; [discriminate S|]. apply Nat.ltb_ge in Q.
+    unfold sub, slice in Q. rewrite firstn_length, skipn_length in Q. lia.
+Qed.
